@@ -52,3 +52,4 @@ C16_html_capture_nul_in_text = _sig('C16/html-capture-nul-in-text')
 C16_html_capture_repeated_body_tag = _sig('C16/html-capture-repeated-body-tag')
 C16_html_capture_reparented_metadata = _sig('C16/html-capture-reparented-metadata')
 C16_html_capture_nonplain_markup_tree_differs = _sig('C16/html-capture-nonplain-markup-tree-differs')
+C20_duration_fractional_component = _sig('C20/duration-fractional-component')
